@@ -378,6 +378,8 @@ impl ConsumeUnverifiedBlockProcessor {
                 .proposal_table
                 .finalize(origin_proposals, tip_header.number());
             fork.detached_proposal_id = detached_proposal_id;
+            #[cfg(feature = "verif-hooks")]
+            crate::verif::record_detached_proposals(&fork.detached_proposal_id);
 
             let new_snapshot =
                 self.shared
@@ -896,6 +898,8 @@ impl ConsumeUnverifiedBlockProcessor {
             .proposal_table
             .finalize(origin_proposals, target_tip_header.number());
         fork.detached_proposal_id = detached_proposal_id;
+        #[cfg(feature = "verif-hooks")]
+        crate::verif::record_detached_proposals(&fork.detached_proposal_id);
 
         let new_snapshot = self.shared.new_snapshot(
             target_tip_header,
